@@ -2003,14 +2003,28 @@ class Interp(object):
 
     def call_function(self, f, args, kwargs):
         # modular substitution: use the callee's contract instead of its body
+        as_callee = False
         if not f.is_spec and isinstance(f.node, ast.FunctionDef):
             q = f.qual()
             spec = self.registry.get(q)
             if spec is not None and self.modular and not (self.depth == 0 and q in self.no_spec_for):
                 self.used_specs.add(q)
                 f = spec
+                as_callee = True
             elif self.depth > 0 or q not in self.no_spec_for:
                 self.inlined.add(q)
+        if as_callee and not self.is_generator(f.node):
+            # the callee's contract stands in for its body: its `require`s become obligations of this call site
+            self.spec_depth_call += 1
+            try:
+                r = yield from self._call_function_body(f, args, kwargs)
+            finally:
+                self.spec_depth_call -= 1
+            return r
+        r = yield from self._call_function_body(f, args, kwargs)
+        return r
+
+    def _call_function_body(self, f, args, kwargs):
         env = self.bind_args(f, args, kwargs)
         if isinstance(f.node, ast.Lambda):
             r = yield from self.ev(f.node.body, env)
